@@ -81,7 +81,7 @@ func c06Unit(c *RunCtx, unit int) {
 			jars[b] = s.Br[b].B.Jar["rm"]
 		}
 		oldPw := U.Pw
-		newCls := pickS(r, "fresh", "fresh", "same", "long73", "long72", "long71", "nonascii", "nul", "one", "weak")
+		newCls := pickS(r, "fresh", "fresh", "same", "long73", "long72", "long71", "nonascii", "nul", "one", "weak", "hashshaped")
 		via := pickS(r, "recover", "recover", "update")
 		var ch *sim.Step
 		usedTok := ""
@@ -106,6 +106,11 @@ func c06Unit(c *RunCtx, unit int) {
 					innerCookie = bb.Jar["rm"]
 				}}
 			}
+		}
+		if yieldAt < 0 && r.Intn(4) == 0 {
+			// the token purge fails: a change that nevertheless reports success owes everything a
+			// successful change owes; one that ends in an error outcome is C18's business
+			arm = func() { s.W.FaultOps = map[string]error{"DelRememberTokens": errGeneric} }
 		}
 		if via == "recover" {
 			// the link is opened on a clean browser, or on one that carries the bystander's session
@@ -147,6 +152,13 @@ func c06Unit(c *RunCtx, unit int) {
 				innerCookie, innerRows = "", 1
 				c.Stats.Count("interleaved-login-same-password-not-judged")
 			}
+		}
+		if ch.Rec.FaultsFired > 0 {
+			if ch.Rec.HandlerErr != "" || ch.Rec.AdminErr != "" || ch.Rec.Status >= 500 || ch.Rec.Panic != "" {
+				c.Stats.Count("change-ended-in-error-under-purge-fault:" + via)
+				continue
+			}
+			c.Stats.Count("change-reported-success-under-purge-fault:" + via)
 		}
 		// the storage delta of the change itself: what the interleaved login did is not the change's doing
 		chDiff := ch.Rec.Diff()
@@ -317,7 +329,7 @@ func c06Unit(c *RunCtx, unit int) {
 func init() {
 	register(&Check{
 		ID: "C06", Level: "exploration",
-		Rule:  "per unit two rounds: 0-3 remember cookies of the target on as many browsers plus one of a bystander (when the remember module is loaded), then a password change by recovery link or programmatic update with old/new pairs from {fresh, identical, 1 byte, 71/72/73 bytes, non-ASCII, NUL-containing, policy-violating}; afterwards real requests: every earlier cookie presented from a session-less browser, the bystander's cookie, the spent recovery token again, login with the old and the new password on a clean browser, login of the bystander; plus direct inspection of the stored hash (bcrypt shape, verifies new, not old unless bcrypt-equivalent) and of the diff (only the target's record/token rows). distinct_nontrivial = distinct (route, new-password class, #cookies, remember loaded, login-after-recovery, mode, applied) signatures.",
+		Rule:  "per unit two rounds: 0-3 remember cookies of the target on as many browsers plus one of a bystander (when the remember module is loaded), then a password change by recovery link or programmatic update (in some units with the remember-token purge failing: a change that still reports success is held to every clause; in others with a login by the OLD password running to completion between two of the change's backend calls) with old/new pairs from {fresh, identical, 1 byte, 71/72/73 bytes, non-ASCII, NUL-containing, policy-violating}; afterwards real requests: every earlier cookie presented from a session-less browser, the bystander's cookie, the spent recovery token again, login with the old and the new password on a clean browser, login of the bystander; plus direct inspection of the stored hash (bcrypt shape, verifies new, not old unless bcrypt-equivalent) and of the diff (only the target's record/token rows). distinct_nontrivial = distinct (route, new-password class, #cookies, remember loaded, login-after-recovery, mode, applied) signatures.",
 		Units: func(t string) int { return tierN(t, 320, 15000) },
 		Run:   c06Unit,
 		Floors: func(t string) map[string]int {
